@@ -250,8 +250,10 @@ func genValue(r *rng, depth int) interface{} {
 			}
 			return arr
 		case 1:
+			// at most one entry: a map that ends up imported into a sub-row is iterated in Go's map order,
+			// which the model cannot be told (the top-level Import(map) operation observes its order)
 			m := map[string]interface{}{}
-			for i := r.intn(3); i > 0; i-- {
+			if r.intn(3) > 0 {
 				m[genKey(r)] = genValue(r, depth+1)
 			}
 			return m
